@@ -150,7 +150,7 @@ def variant_module(repo: Path) -> str:
     b = lambda x: "true" if x else "false"  # noqa: E731
     rows = "; ".join("([" + "; ".join(q(n) for n in names) + f"], {b(d)})" for names, d in hs)
     return (
-        "From Coq Require Import List String Bool.\nFrom VGI Require Import M_WireConn.\nImport ListNotations.\nOpen Scope string_scope.\n"
+        "From Coq Require Import List String Bool.\nFrom VGI Require Import M_WireConn.\nImport ListNotations.\nLocal Open Scope string_scope.\n"
         f"(* _read_unary_response, first try: (caught classes, drains before re-raising) in source order *)\n"
         f"Definition gen_unary_handlers : list (list string * bool) := [{rows}].\n"
         f"Definition gen_variant : variant := {{| checks_stream_result := {b(checks)}; unary_drains_any := {b(drains)} |}}.\n"
